@@ -71,7 +71,7 @@ VOTE_FUNCS = {
     "from_to", "range", "beyond", "outside", "in", "empty", "exists", "all", "missing", "starts_with", "first", "every",
     "tally", "last", "failed", "valid",
 }
-SIDE_FUNCS = {"put", "push", "push_distinct", "counter", "sum", "subtotal", "stop", "skip", "advance", "fail", "fail_and_stop", "tally", "first", "every", "pop"}
+SIDE_FUNCS = {"put", "push", "push_distinct", "counter", "sum", "subtotal", "stop", "skip", "advance", "fail", "fail_all", "fail_and_stop", "tally", "first", "every", "pop"}
 
 
 class Model:
@@ -716,7 +716,8 @@ class Model:
             v = self.val(a[0])
             self.advance = int(v)
             return True
-        if f == "fail":
+        if f in ("fail", "fail_all"):
+            # (standalone, fail_all() has no siblings to fail: it is fail())
             self.valid = False
             return True
         raise AssertionError("side " + str(n))
@@ -769,7 +770,7 @@ class Model:
             return False
         if self.is_effectful(c):
             v = self.side_effect(c)
-            if c[0] == "fn" and c[1] in ("push", "push_distinct", "counter", "sum", "subtotal", "stop", "skip", "advance", "fail", "fail_and_stop", "pop"):
+            if c[0] == "fn" and c[1] in ("push", "push_distinct", "counter", "sum", "subtotal", "stop", "skip", "advance", "fail", "fail_all", "fail_and_stop", "pop"):
                 return True if self.AND else v
             return v
         return self.vote(c)
